@@ -135,9 +135,44 @@ def mktime(ns):
     return P().LocalTime.from_nanoseconds_since_midnight(ns)
 
 
-def mkperiod(c):
+def _period_plain(c):
     return P().Period._ctor(years=c[0], months=c[1], weeks=c[2], days=c[3], hours=c[4], minutes=c[5], seconds=c[6],
                             milliseconds=c[7], ticks=c[8], nanoseconds=c[9])
+
+
+def mkperiod(c):
+    """the Period with components c: by the constructor, or as the RESULT of + / - on periods that have already been
+    USED (to_duration / normalize / has_*_component asked), or an already-used object - chosen from the components.
+    Equal periods must behave equally however they were made."""
+    c = list(c)
+    k = (sum(abs(v) for v in c) + c[5] * 3 + c[8]) % 5
+    r = None
+    try:
+        if k in (1, 2):
+            a = [v // 2 for v in c]
+            b = [v - w for v, w in zip(c, a)]
+            if k == 2:
+                a, b = [v + 2 for v in c], [2] * 10            # c = a - b
+            pa, pb = _period_plain(a), _period_plain(b)
+            for q in (pa, pb):
+                for use in (lambda: q.to_duration(), lambda: q.normalize(), lambda: (q.has_time_component, q.has_date_component)):
+                    try:
+                        use()
+                    except Exception:  # noqa: BLE001
+                        pass
+            r = pa + pb if k == 1 else pa - pb
+        elif k == 3:
+            r = _period_plain(c)
+            for use in (lambda: r.normalize(), lambda: r.to_duration()):
+                try:
+                    use()
+                except Exception:  # noqa: BLE001
+                    pass
+        if r is not None and comps(r) != tuple(c):
+            r = None
+    except Exception:  # noqa: BLE001
+        r = None
+    return r if r is not None else _period_plain(c)
 
 
 def comps(p):
